@@ -79,6 +79,19 @@ def check_writer(ctx, m, fn: ast.FunctionDef, label: str, informational: bool = 
     opens = find_write_opens(cfg)
     rens = renames(cfg)
     n = 0
+    # A5: the destination of a rename is never removed by the same writer
+    dests = {source.src(rc.args[1]) for (_, rc) in rens}
+    for c in source.calls_in(fn, include_nested=True):
+        cn = call_name(c) or ""
+        if cn in ("os.remove", "os.unlink", "os.truncate", "shutil.rmtree") and c.args and source.src(c.args[0]) in dests:
+            ctx.ob("C14.A5-destination-never-removed", c, False,
+                   "%s: %s removes the state file before the temporary file is renamed over it: a crash (or a failing rename, whose "
+                   "error is only collected) between the two leaves no version of the file at all" % (label, short(c, 60)),
+                   construct="%s in %s" % (short(c, 80), source.qualname(fn)))
+    if dests and not any((call_name(c) or "") in ("os.remove", "os.unlink", "os.truncate", "shutil.rmtree") and c.args and source.src(c.args[0]) in dests
+                         for c in source.calls_in(fn, include_nested=True)):
+        ctx.ob("C14.A5-destination-never-removed", fn, True, "%s: the state file is replaced only by the rename" % label,
+               construct="no remove of %s in %s" % (sorted(dests), source.qualname(fn)))
     for (on, oc) in opens:
         n += 1
         path_expr = oc.args[0] if oc.args else None
@@ -182,13 +195,20 @@ def mutations_of_self(fn: ast.AST) -> List[ast.AST]:
         for x in source.walk_own(fn):
             if isinstance(x, ast.Assign) and len(x.targets) == 1 and isinstance(x.targets[0], ast.Name):
                 v = x.value
-                # a plain reference (no call, no literal, no comprehension): the same object
-                if isinstance(v, (ast.Attribute, ast.Subscript, ast.Name)):
-                    r = root_of(v)
-                    if (r == "self" and not isinstance(v, ast.Name)) or (r in aliases):
-                        if x.targets[0].id not in aliases:
-                            aliases.add(x.targets[0].id)
-                            changed = True
+                # a plain reference (no call, no literal, no comprehension): the same object; `a or b` / `a if c else b`
+                # hand out one of their operands
+                operands = [v]
+                if isinstance(v, ast.BoolOp):
+                    operands = list(v.values)
+                elif isinstance(v, ast.IfExp):
+                    operands = [v.body, v.orelse]
+                for v_ in operands:
+                    if isinstance(v_, (ast.Attribute, ast.Subscript, ast.Name)):
+                        r = root_of(v_)
+                        if (r == "self" and not isinstance(v_, ast.Name)) or (r in aliases):
+                            if x.targets[0].id not in aliases:
+                                aliases.add(x.targets[0].id)
+                                changed = True
                 # dict.get / setdefault hand out the stored object
                 if isinstance(v, ast.Call) and isinstance(v.func, ast.Attribute) and v.func.attr in ("get", "setdefault"):
                     r = root_of(v.func.value)
@@ -231,6 +251,8 @@ def run(ctx) -> None:
     ctx.rule("C14.A1-temp-then-rename", "state files are written to a temporary path that is then renamed; the final path is never opened for writing")
     ctx.rule("C14.A2-rename-on-success-only", "the rename is reachable only after the write completed normally")
     ctx.rule("C14.A3-close-before-rename", "the temporary file is closed before it is renamed over the state file")
+    ctx.rule("C14.A5-destination-never-removed", "the state file itself is never removed/unlinked/truncated by its writer: only the "
+             "atomic rename replaces it (between a remove and the rename no version exists on disk)")
     ctx.rule("C14.A4-serialiser-is-pure", "the serialiser does not modify the object it persists")
     ctx.rule("C14.R5-escape-agreement", "keys escaped by Status.writeToStream equal keys unescaped by Status.statusFromFile with inverse codecs; one 'key=value' line per key")
     ctx.assume("os.rename within one directory is atomic (POSIX); durability (fsync) is not part of the property")
